@@ -38,7 +38,42 @@ def run(ctx, db, tier):
     # a promise handle that is overwritten while it still owns the shared state must drop it (resolve to no-value), or the state, its
     # awaiters and the tracer's self-reference stay for ever
     C01.dtor_and_assign(ctx, db, 'C17.overwritten-promise-dropped')
+    ready_means_resolved(ctx, db)
     atomic.check_roles(ctx, db, 'C17.ready-acquires', only_functions={'cocls::future_common::ready', 'cocls::awaiter::resume_chain_set_ready', 'cocls::awaiter::subscribe_check_ready'}, floor=3)
+
+
+def ready_means_resolved(ctx, db):
+    """shared_future::ready() is the polling form every copy uses: it must answer "resolved" (future_common::ready(), the acquire load of the
+    ready marker) - "not pending" is also true for a shared state whose promise has not been handed out yet, and is a relaxed read"""
+    rid = ctx.rule('C17.ready-means-resolved', 'PATHS+SIBLINGS', 'shared_future::ready(): false without a shared state, otherwise exactly the answer of future_common::ready() of the shared future '
+                   '(never derived from pending() / initialized(): a state that is initialised but not yet charged is not pending and not resolved)', floor=1)
+    T = htracer(db)
+    seen = set()
+    for f in db.need('cocls::shared_future::ready'):
+        if f['key'] in seen:
+            continue
+        seen.add(f['key'])
+        trs = [t for t in T.traces(f) if live(t)]
+        ctx.paths(rid, len(trs))
+        bad = None; nr = 0
+        for tr in trs:
+            rd = [c for c in calls(tr) if norm(c.get('callee')) == 'cocls::future_common::ready' and c.get('depth', 0) == 0]
+            other = [c for c in calls(tr) if norm(c.get('callee')) in ('cocls::future_common::pending', 'cocls::future_common::initialized', 'cocls::future_common::dormant') and c.get('depth', 0) == 0]
+            r_ = next((it for it in reversed(tr) if it.k == 'return' and it.get('depth', 0) == 0), None)
+            rp_ = (ret_expr(tr) or (r_.get('path') if r_ is not None else '') or '')
+            if other:
+                bad = bad or ('ready() is derived from %s(): a shared state that exists but was not yet connected to its promise reports "ready", and the load does not acquire the result' % norm(other[0].get('callee')).split('::')[-1], tr)
+            elif rd:
+                nr += 1
+                rv_ = ret_value(tr)
+                e_ = (origin_in_trace(tr, len(tr), rv_[1])[0] or rv_[1]) if rv_ is not None and rv_[0] == 'expr' else ''
+                if len(rd) != 1 or rv_ is None or rv_[0] != 'expr' or rv_[2] or 'future_common::ready' not in e_:
+                    bad = bad or ('the answer of future_common::ready() is not what ready() returns', tr)
+            elif r_ is None or (r_.get('const') != 0 and ret_bool(tr) is not False):
+                bad = bad or ('a path without a shared state does not answer false', tr)
+        if nr == 0 and not bad:
+            bad = ('no path asks the shared future', trs[0] if trs else [])
+        ctx.ob(rid, f, f['key'], bad is None, 'ready() is the shared future\'s ready()' + ('' if not bad else ' -- ' + bad[0]), desc=bad[0] if bad else None, trace=fmt_trace(bad[1]) if bad else None)
 
 
 def _ptr_fact(tr, i):
